@@ -883,7 +883,10 @@ def titleparts_fn(
     if num_return == 0:
         num_return = num_parts
     elif num_return < 0:
-        num_return = max(0, num_parts + num_return)
+        # negative: strip that many segments from the end
+        num_return = num_parts + num_return - first
+        if num_return <= 0:
+            return ""
     parts = parts[2 * first : 2 * (first + num_return) - 1]
     return "".join(parts)
 
